@@ -56,19 +56,22 @@ def distance_info(run, it, fq, D, frame_loop, part_loop, loc):
         # distances without minimum image: positive witness if it is a plain difference norm
         if inner is not None and pair_difference(inner):
             run.ob("R-PBC", fq, "minimum-image", False, "distances are minimum-image distances", show(D)[:120],
-                   witness="two particles at opposite faces of a periodic box are closer through the boundary than directly", loc=loc)
+                   witness="two particles at opposite faces of a periodic box are closer through the boundary than directly", loc=loc, sound=True)
         else:
             run.ob("R-PBC", fq, "minimum-image", None, "distance term recognised", show(D)[:120], loc=loc)
         return False
     diff, hm, ppp = pa
     pd = pair_difference(diff)
-    ok = pd is not None and pd["snap"] == snap and {show(pd["left"]), show(pd["right"])} == {show(FULL), show(i)}
+    ok = None
+    if pd is not None:
+        # recognised `positions[a] - positions[b]` of one frame: a definite verdict either way
+        ok = pd["snap"] == snap and {show(pd["left"]), show(pd["right"])} == {show(FULL), show(i)}
     run.ob("R-PBC", fq, "difference", ok, "distance vector = positions of all particles - position of the centre particle i, same frame",
-           show(diff)[:120], witness=None if ok else "difference is not between all particles and particle i of the current frame", loc=loc)
+           show(diff)[:120], witness=None if ok else "difference is not between all particles and particle i of the current frame", loc=loc, sound=True)
     okh = eqv(hm, ("attr", snap, "hmatrix"))
     run.ob("R-PBC", fq, "cell", okh, "minimum image uses the current frame's cell", show(hm)[:70],
            witness=None if okh else "cell of another frame used: wrong images when the box changes between frames", loc=loc, sound=True)
-    okm = eqv(ppp, ("sym", "ppp"))
+    okm = eqv(ppp, ("sym", "ppp")) if ppp is not None else False     # recognised remove_pbc call without the mask argument
     run.ob("R-PBC", fq, "mask", okm, "the caller's periodicity mask is forwarded", show(ppp)[:50] if ppp else "default mask",
            witness=None if okm else "non-periodic axes are wrapped (default mask used)", loc=loc, sound=True)
     return ok
@@ -86,6 +89,12 @@ def is_arange(t, n):
     if t[0] == "call" and t[1] == ".astype" and t[2]:
         t = t[2][0]
     return t[0] == "call" and t[1] == "numpy.arange" and len(t[2]) == 1 and (n is None or t[2][0] == n)
+
+
+def arange_arg(t):
+    if t[0] == "call" and t[1] == ".astype" and t[2]:
+        t = t[2][0]
+    return t[2][0] if (t[0] == "call" and t[1] == "numpy.arange" and len(t[2]) == 1) else None
 
 
 def decode(t, ops):
@@ -153,12 +162,14 @@ def run_pipeline(ops, D, table, n_sym):
     for op in ops:
         k = op[0]
         if k == "argsort":
-            if op[1] != D:
-                problems.append(("keys", f"argsort of {show(op[1])[:60]}, not of the distance array"))
+            same = eqv(op[1], D)
+            if same is not True:
+                problems.append(("keys", f"argsort of {show(op[1])[:60]}, not of the distance array", same is False))
             st = dict(kind="ranks", lo=sp.Integer(0), hi=None, set="all", base=0)
         elif k == "argpartition":
-            if op[1] != D:
-                problems.append(("keys", f"argpartition of {show(op[1])[:60]}, not of the distance array"))
+            same = eqv(op[1], D)
+            if same is not True:
+                problems.append(("keys", f"argpartition of {show(op[1])[:60]}, not of the distance array", same is False))
             st = dict(kind="partition", k=sym_int(op[2], table), base=0)
         elif k == "where":
             st = dict(kind="set", set=("mask", op[1]), base=0, index_ordered=True)
@@ -171,7 +182,7 @@ def run_pipeline(ops, D, table, n_sym):
                 raise AnalysisError("slice before any selection")
             if st["kind"] == "partition":
                 if lo != 0 or hi is None:
-                    problems.append(("prefix", "argpartition result is not cut to a prefix [:m]"))
+                    problems.append(("prefix", "argpartition result is not cut to a prefix [:m]", True))
                     st = dict(kind="set", set=("unknown",), base=0)
                     continue
                 d = sp.simplify(hi - st["k"])
@@ -179,7 +190,7 @@ def run_pipeline(ops, D, table, n_sym):
                     st = dict(kind="set", set=("smallest", hi), base=0)
                 else:
                     problems.append(("prefix", f"argpartition(kth={st['k']}) fixes only the set of the first kth (or kth+1) entries; "
-                                               f"the prefix [:{hi}] (length - kth = {d}) is not guaranteed to hold the {hi} smallest distances"))
+                                               f"the prefix [:{hi}] (length - kth = {d}) is not guaranteed to hold the {hi} smallest distances", True))
                     st = dict(kind="set", set=("smallest?", hi), base=0)
             elif st["kind"] == "ranks":
                 new_lo = st["lo"] + lo
@@ -187,7 +198,7 @@ def run_pipeline(ops, D, table, n_sym):
                 st = dict(st, lo=new_lo, hi=new_hi)
             else:
                 # slicing an unordered set: order is index order, not distance order
-                problems.append(("order", "a prefix/suffix is taken from a set that is not ordered by distance"))
+                problems.append(("order", "a prefix/suffix is taken from a set that is not ordered by distance", True))
                 st = dict(kind="ranks", lo=lo, hi=hi, set=st["set"], base=st["base"], unordered=True)
         elif k in ("sortby", "sortby-ungathered"):
             if st is None or st["kind"] not in ("set",):
@@ -197,13 +208,16 @@ def run_pipeline(ops, D, table, n_sym):
                 else:
                     raise AnalysisError("sort applied to an unrecognised selection")
             if k == "sortby-ungathered":
+                # definite only when the keys are literally the whole distance array; any other key term is outside the table
                 problems.append(("keys", f"sort keys {show(op[1])[:60]} are not gathered by the candidate set: argsort of the whole distance array "
-                                         "indexes all particles, not the candidates"))
+                                         "indexes all particles, not the candidates", eqv(op[1], D) is True))
             else:
-                if op[1] != D:
-                    problems.append(("keys", f"sort keys come from {show(op[1])[:60]}, not from the distance array"))
-                if op[2] != op[3]:
-                    problems.append(("keys", "sort keys are gathered by a different index array than the one being reordered"))
+                same = eqv(op[1], D)
+                if same is not True:
+                    problems.append(("keys", f"sort keys come from {show(op[1])[:60]}, not from the distance array", same is False))
+                same = eqv(op[2], op[3])
+                if same is not True:
+                    problems.append(("keys", "sort keys are gathered by a different index array than the one being reordered", same is False))
             if st["kind"] == "ranks" and not st.get("unordered"):
                 continue            # already in distance order: sorting again by the gathered distances changes nothing
             size = None
@@ -291,29 +305,45 @@ def segments(t):
 
 def check_header(run, it, fq, writes, frame_loop, first_row_seq, want_token=True):
     """exactly one header line per frame, before the rows, containing the token `neighborlist`."""
-    hdr = []
+    handle = writes[0].data["call"][2][0] if writes else None
+    # any other way text could reach the file makes a negative verdict undecidable
+    other = [e for e in it.events if e.kind == "call" and e.data["call"][1] != ".write" and
+             (handle in e.data["call"][2] or any(v == handle for _, v in e.data["call"][3])) and
+             e.data["call"][1] not in (".close", ".flush")]
+    unknown = bool(other)
+    parts = []
     for w in writes:
-        if w.loops == (frame_loop.id,):
+        if w.loops == (frame_loop.id,) and w.seq < first_row_seq:
             try:
                 segs = segments(w.data["call"][2][1])
             except AnalysisError:
+                unknown = True
                 continue
-            if len(segs) == 1 and segs[0][0] == "lit" and w.seq < first_row_seq:
-                hdr.append((w, segs[0][1]))
-    ok = len(hdr) == 1
+            if all(sg[0] == "lit" for sg in segs):
+                parts.append((w, "".join(sg[1] for sg in segs)))
+            else:
+                unknown = True
+    text = "".join(t for _, t in parts)
+    nlines = text.count("\n")
+    if nlines == 1 and text.endswith("\n") and not unknown:
+        ok = True
+    elif nlines == 0 and not unknown:
+        ok = False
+    elif nlines >= 2:
+        ok = False
+    else:
+        ok = None
     run.ob("R-PROTO", fq, "header:per-frame", ok, "one header line is written per frame, inside the frame loop, before the particle rows",
-           f"{len(hdr)} header writes in the frame loop", witness=None if ok else
-           ("multi-frame file: the reader consumes one header per frame; frames after the first are shifted by one line" if not hdr else
-            "two header lines per frame: the reader parses the second as particle 1"), loc=it.fi.loc(frame_loop.node))
+           f"{nlines} literal header lines written in the frame loop before the rows", witness=None if ok else
+           ("multi-frame file: the reader consumes one header per frame; frames after the first are shifted by one line" if not nlines else
+            "two header lines per frame: the reader parses the second as particle 1"), loc=it.fi.loc(frame_loop.node), sound=True)
     if not ok:
         return
-    w, text = hdr[0]
-    ok1 = text.endswith("\n") and text.count("\n") == 1
-    run.ob("R-PROTO", fq, "header:line", ok1, "the header is exactly one line", repr(text),
-           witness=None if ok1 else "header is not one newline-terminated line: the reader's line count is off", loc=loc_of(it, w))
+    w = parts[0][0]
+    run.ob("R-PROTO", fq, "header:line", True, "the header is exactly one line", repr(text), loc=loc_of(it, w))
     has = "neighborlist" in text.split()
     run.ob("R-PROTO", fq, "header:token", has == want_token, "the header carries the token `neighborlist` (the reader subtracts 1 from ids only then)",
-           repr(text), witness=None if has == want_token else "reader treats the ids as weights: no -1 shift, float array returned", loc=loc_of(it, w))
+           repr(text), witness=None if has == want_token else "reader treats the ids as weights: no -1 shift, float array returned", loc=loc_of(it, w), sound=True)
 
 
 def open_handle(it, mode):
@@ -369,29 +399,29 @@ def check_nnearests(run, pkg):
         for nv in (1, 2, 3):
             trials.append((dist, {N: nv}))
     conc = concrete_selection(val, D, {}, expect, trials)
-    for kind, msg in problems:
-        run.ob("R-SELECTK", fq, f"nearest:{kind}", False, "the candidate set is the N+1 smallest distances and is ordered by those distances",
-               msg, witness=conc or msg, loc=loc)
+    for kind, msg, definite in problems:
+        run.ob("R-SELECTK", fq, f"nearest:{kind}", False if definite else None, "the candidate set is the N+1 smallest distances and is ordered by those distances",
+               msg, witness=conc or msg, loc=loc, sound=True)
     if not problems:
         run.ob("R-SELECTK", fq, "nearest:pipeline", True, "selection = argpartition/argsort of the distances -> prefix -> sort by gathered distances",
                " -> ".join(o[0] for o in ops), loc=loc)
     # ranks kept must be [1, N+1)
     if st["kind"] != "ranks" or st.get("unordered"):
         run.ob("R-SELECTK", fq, "nearest:ordered", False, "neighbours are written in order of increasing distance", " -> ".join(o[0] for o in ops),
-               witness=conc or "argpartition leaves the prefix unordered: file order is not distance order", loc=loc)
+               witness=conc or "argpartition leaves the prefix unordered: file order is not distance order", loc=loc, sound=True)
     else:
         lo, hi = st["lo"], st["hi"]
         ok_lo = sp.simplify(lo - 1) == 0
         run.ob("R-SELECTK", fq, "nearest:drop-self", ok_lo, "exactly the closest entry (the particle itself, distance 0) is dropped",
-               f"ranks kept start at {lo}", witness=None if ok_lo else (conc or (f"rank {lo} is the first kept: " + ("the particle itself is listed as its own neighbour" if lo == 0 else "the nearest neighbour is lost"))), loc=loc)
+               f"ranks kept start at {lo}", witness=None if ok_lo else (conc or (f"rank {lo} is the first kept: " + ("the particle itself is listed as its own neighbour" if lo == 0 else "the nearest neighbour is lost"))), loc=loc, sound=True)
         ok_hi = hi is not None and sp.simplify(hi - (Ns + 1)) == 0
         run.ob("R-SELECTK", fq, "nearest:count", ok_hi, "ranks 1..N are kept (N neighbours)", f"ranks [{lo}, {hi})",
-               witness=None if ok_hi else (conc or f"ranks [{lo}, {hi}) kept instead of [1, N+1)"), loc=loc)
+               witness=None if ok_hi else (conc or f"ranks [{lo}, {hi}) kept instead of [1, N+1)"), loc=loc, sound=True)
     okb = st["base"] == 1
     run.ob("R-IDX", fq, "nearest:one-based", okb, "ids written to the file are 1-based (index + 1)", f"offset +{st['base']}",
-           witness=None if okb else (conc or "reader subtracts 1: every neighbour index is shifted"), loc=loc)
+           witness=None if okb else (conc or "reader subtracts 1: every neighbour index is shifted"), loc=loc, sound=True)
     # placement: row i, columns 2: ; id column, cn column
-    okr = tri_lazy(lambda: (True if (row == i) else None), lambda: eqv(col, ("slice", C(2), NONE, NONE)))
+    okr = tri(eqv(row, i), eqv(col, ("slice", C(2), NONE, NONE)))
     run.ob("R-IDX", fq, "nearest:row", okr, "the list of particle i is stored in row i, columns 2..", show(ev.data["target"][2])[:50],
            witness=None if okr else "neighbours stored in another row / overlapping the id or cn column", loc=loc, sound=True)
     sh = arr[2][0] if arr[0] == "call" and arr[1] == "numpy.zeros" and arr[2] else None
@@ -403,9 +433,9 @@ def check_nnearests(run, pkg):
     run.ob("R-IDX", fq, "nearest:id-column", ok_id, "column 0 holds the 1-based particle id of the row", key_of(st_id[0]) if st_id else "no store",
            witness=None if ok_id else "row k is labelled with another id: the reader places it in the wrong row", loc=loc, sound=True)
     st_cn = [e for e in stores(it) if e.data["target"][1] == arr and e.data["target"][2] == ("tuple", (FULL, C(1)))]
-    ok_cn = len(st_cn) == 1 and st_cn[0].data["value"] == N
+    ok_cn = eqv(st_cn[0].data["value"], N) if len(st_cn) == 1 else None
     run.ob("R-PROTO", fq, "nearest:cn-column", ok_cn, "column 1 holds the coordination number N", key_of(st_cn[0]) if st_cn else "no store",
-           witness=None if ok_cn else "cn field differs from the number of ids that follow", loc=loc)
+           witness=None if ok_cn else "cn field differs from the number of ids that follow", loc=loc, sound=True)
     # text
     writes = file_writes(it, handle)
     arrw = []
@@ -443,13 +473,14 @@ def check_nnearests(run, pkg):
 
 
 def check_writer_handle(run, it, fq, open_ev, frame_loop):
-    ok = not open_ev.loops
+    ok = not open_ev.loops            # loop membership of the recognised open(.., 'w') call: definite
     closes = [e for e in it.events if e.kind == "call" and e.data["call"][1] == ".close" and e.data["call"][2] and e.data["call"][2][0] == open_ev.data["result"]]
-    okc = (len(closes) == 1 and not closes[0].loops) or any(e.kind == "with" and e.data["value"] == open_ev.data["result"] for e in it.events)
+    okc = True if ((len(closes) == 1 and not closes[0].loops) or any(e.kind == "with" and e.data["value"] == open_ev.data["result"] for e in it.events)) else \
+        (False if any(set(c.loops) - set(open_ev.loops) for c in closes) else None)
     run.ob("R-HANDLE", fq, "writer:open", ok, "the output file is opened once, before the frame loop", f"open in loops {open_ev.loops}",
-           witness=None if ok else "re-opened per frame in 'w' mode: only the last frame survives", loc=loc_of(it, open_ev))
+           witness=None if ok else "re-opened per frame in 'w' mode: only the last frame survives", loc=loc_of(it, open_ev), sound=True)
     run.ob("R-HANDLE", fq, "writer:close", okc, "the output file is closed after the frame loop", f"{len(closes)} close calls",
-           witness=None if okc else "file closed inside the loop (later frames fail) or never flushed", loc=loc_of(it, open_ev))
+           witness=None if okc else "file closed inside the frame loop: writing the next frame fails", loc=loc_of(it, open_ev), sound=True)
 
 
 def check_cutoff(run, pkg, name, typed):
@@ -510,13 +541,13 @@ def check_cutoff(run, pkg, name, typed):
         return
     D, rc, op = cmpn
     if rng is not None:
-        okr = is_arange(rng, ("attr", snap, "nparticle"))
+        okr = eqv(arange_arg(rng), ("attr", snap, "nparticle"))
         run.ob("R-IDX", fq, "cutoff:index-base", okr, "the mask selects from the 0-based indices of all particles of the frame", show(rng)[:60],
-               witness=None if okr else "candidate indices are not 0..nparticle-1", loc=loc)
+               witness=None if okr else "candidate indices are not 0..nparticle-1", loc=loc, sound=True)
     distance_info(run, it, fq, D, frame_loop, part_loop, loc)
-    okc = op == "<="
+    okc = op == "<="        # the comparator of the recognised `distance op cutoff` mask: a definite verdict
     run.ob("R-CMP", fq, "cutoff:inclusive", okc, "a particle at exactly the cutoff distance is a neighbour (d <= r_c)", f"d {op} cutoff",
-           witness=None if okc else ("d = r_c exactly: excluded, the property requires it" if op == "<" else f"comparator {op} selects the particles outside the cutoff"), loc=loc)
+           witness=None if okc else ("d = r_c exactly: excluded, the property requires it" if op == "<" else f"comparator {op} selects the particles outside the cutoff"), loc=loc, sound=True)
     if not typed:
         okrc = eqv(rc, ("sym", "r_cut"))
         run.ob("R-CMP", fq, "cutoff:value", okrc, "the distance is compared with the caller's r_cut", show(rc)[:60],
@@ -544,30 +575,31 @@ def check_cutoff(run, pkg, name, typed):
                 break
     except Exception:  # noqa
         conc = None
-    for kind, msg in problems:
-        run.ob("R-SELECTK", fq, f"cutoff:{kind}", False, "the selected particles are ordered by their own distances", msg, witness=conc or msg, loc=loc)
+    for kind, msg, definite in problems:
+        run.ob("R-SELECTK", fq, f"cutoff:{kind}", False if definite else None, "the selected particles are ordered by their own distances", msg, witness=conc or msg, loc=loc, sound=True)
     if not problems:
         run.ob("R-SELECTK", fq, "cutoff:pipeline", True, "selection = mask -> sort by gathered distances -> drop first -> +1", " -> ".join(o[0] for o in ops), loc=loc)
     if st["kind"] != "ranks" or st.get("unordered"):
         run.ob("R-SELECTK", fq, "cutoff:ordered", False, "neighbours are written in order of increasing distance", " -> ".join(o[0] for o in ops),
-               witness=conc or "the mask yields index order, not distance order (and index order does not put the particle itself first)", loc=loc)
+               witness=conc or "the mask yields index order, not distance order (and index order does not put the particle itself first)", loc=loc, sound=True)
     else:
         ok_lo = st["lo"] == 1 and st["hi"] is None
         run.ob("R-SELECTK", fq, "cutoff:drop-self", ok_lo, "exactly the closest selected entry (the particle itself) is dropped, all others kept",
                f"ranks [{st['lo']}, {st['hi'] if st['hi'] is not None else 'end'})", witness=None if ok_lo else
-               (conc or ("the particle is listed as its own neighbour" if st["lo"] == 0 else "selected particles are lost")), loc=loc)
+               (conc or ("the particle is listed as its own neighbour" if st["lo"] == 0 else "selected particles are lost")), loc=loc, sound=True)
     okb = st["base"] == 1
     run.ob("R-IDX", fq, "cutoff:one-based", okb, "ids written to the file are 1-based (index + 1)", f"offset +{st['base']}",
-           witness=None if okb else (conc or "reader subtracts 1: every neighbour index is shifted"), loc=loc)
+           witness=None if okb else (conc or "reader subtracts 1: every neighbour index is shifted"), loc=loc, sound=True)
     # cn = size of the selected set - 1
     sel_term = ops[0][3]
     want = [("bin", "-", ("sub", ("attr", sel_term, "shape"), C(0)), C(1)), ("bin", "-", ("call", "builtins.len", (sel_term,), ()), C(1)),
             ("bin", "-", ("attr", sel_term, "size"), C(1)),
             ("sub", ("attr", lst, "shape"), C(0)), ("call", "builtins.len", (lst,), ()), ("attr", lst, "size")] if sel_term else []
-    okcn = cn_t in want or (cn_t[0] == "call" and cn_t[1] == "builtins.int" and cn_t[2] and cn_t[2][0] in want)
-    if not okcn and sel_term is not None:
-        # sum of the mask - 1
-        okcn = eqv(cn_t, ("bin", "-", ("call", ".sum", (mask,), ()), C(1)), ("bin", "-", ("call", "numpy.count_nonzero", (mask,), ()), C(1)))
+    cn_in = cn_t[2][0] if (cn_t[0] == "call" and cn_t[1] == "builtins.int" and len(cn_t[2]) == 1) else cn_t
+    okcn = None
+    if sel_term is not None:
+        # ... or sum of the mask - 1
+        okcn = eqv(cn_in, *want, ("bin", "-", ("call", ".sum", (mask,), ()), C(1)), ("bin", "-", ("call", "numpy.count_nonzero", (mask,), ()), C(1)), same=True)
     run.ob("R-PROTO", fq, "row:cn", okcn, "the cn field equals the number of ids on the line (selected particles minus the particle itself)", show(cn_t)[:80],
            witness=None if okcn else "cn differs from the number of ids that follow: the reader slices item[2:cn+2] and mis-sizes the row", loc=loc, sound=True)
     first_row = min(w.seq for w in rows)
@@ -628,7 +660,7 @@ def check_type_cutoffs(run, it, fq, rc, snap, i, loc):
     tgt = f.data["target"][2]
     val = f.data["value"]
     loops = [it.loops[l] for l in f.loops]
-    ok = False
+    ok = None
     detail = key_of(f)
     if tgt[0] == "tuple" and len(tgt[1]) == 2 and len(loops) == 2:
         a, j = tgt[1]
@@ -636,17 +668,21 @@ def check_type_cutoffs(run, it, fq, rc, snap, i, loc):
         Lj = [L for L in loops if L.target == j]
         if La and Lj:
             shp = table[2][0] if table[0] == "call" and table[1] == "numpy.zeros" and table[2] else None
-            dom_a = La[0].iter == ("call", "builtins.range", (("sub", ("attr", table, "shape"), C(0)),), ())
-            dom_j = Lj[0].iter == ("call", "builtins.range", (("sub", ("attr", table, "shape"), C(1)),), ())
+            dom_a = eqv(La[0].iter, ("call", "builtins.range", (("sub", ("attr", table, "shape"), C(0)),), ()))
+            dom_j = eqv(Lj[0].iter, ("call", "builtins.range", (("sub", ("attr", table, "shape"), C(1)),), ()))
             n0 = ("attr", ("sub", ("attr", SN, "snapshots"), C(0)), "nparticle")
-            shape_ok = shp is not None and shp[0] == "tuple" and len(shp[1]) == 2 and shp[1][1] == n0
+            shape_ok = eqv(shp[1][1], n0) if (shp is not None and shp[0] == "tuple" and len(shp[1]) == 2) else None
             want = ("sub", ("sym", "r_cut"), ("tuple", (a, ("bin", "-", ("sub", ptype0, j), C(1)))))
-            ok = dom_a and dom_j and shape_ok and val == want
+            want2 = ("sub", ("sub", ("sym", "r_cut"), a), ("bin", "-", ("sub", ptype0, j), C(1)))
+            okv = eqv(val, want)
+            if okv is None and eqv(val, want2) is True:
+                okv = True
+            ok = tri(dom_a, dom_j, shape_ok, okv)
             if not (dom_a and dom_j and shape_ok):
                 detail += " ; table not filled for all (type, particle) entries"
     run.ob("R-IDX", fq, "typed:table", ok, "cutoffs[a, j] = r_cut[a, type_j - 1] for every type row a and particle j", detail,
            witness=None if ok else "binary mixture with r_cut = [[AA, AB], [BA, BB]], AB != BA or unequal diagonal: the pair (i, j) is tested against the wrong cutoff",
-           loc=loc_of(it, f))
+           loc=loc_of(it, f), sound=True)
 
 
 # ====================================================================== reader
@@ -761,16 +797,18 @@ def check_reader_rows(run, it, fq, nl, rel, case, protocol):
     rows = [e for e in rl if e.loops]
     if protocol:
         ok = len(hdr) == 1 and len(rows) == 1 and len(rows[0].loops) == 1 and hdr[0].seq < rows[0].seq
+        if not ok and any(e.kind == "call" and e.data["call"][1] in (".readlines", ".read", "builtins.next", ".__next__") for e in it.events):
+            ok = None       # lines consumed by other means than readline(): outside the table
         run.ob("R-PROTO", fq, "lines", ok, "one call consumes one header line, then one line per particle", f"{len(hdr)} header reads, {len(rows)} row reads",
-               witness=None if ok else "frame k+1 starts at the wrong line of a multi-frame file", loc=fi.loc())
+               witness=None if ok else "frame k+1 starts at the wrong line of a multi-frame file", loc=fi.loc(), sound=True)
         if ok:
             L = it.loops[rows[0].loops[0]]
             okd = eqv(L.iter, ("call", "builtins.range", (("sym", "nparticle"),), ()))
             run.ob("R-PROTO", fq, "lines:count", okd, "exactly nparticle particle lines are consumed", show(L.iter)[:50],
                    witness=None if okd else "too few/many lines consumed: the next frame starts mid-frame", loc=fi.loc(L.node), sound=True)
-            okf = all(e.data["call"][2][0] == ("sym", "f") for e in rl)
+            okf = tri(*[eqv(e.data["call"][2][0], ("sym", "f")) for e in rl])
             run.ob("R-HANDLE", fq, "reader:handle", okf, "lines are read from the caller's open handle (file position carries over to the next frame)",
-                   show(rl[0].data["call"])[:50], witness=None if okf else "file re-opened inside the reader: every call returns frame 0", loc=fi.loc())
+                   show(rl[0].data["call"])[:50], witness=None if okf else "file re-opened inside the reader: every call returns frame 0", loc=fi.loc(), sound=True)
     if len(rows) != 1:
         return
     row_line = rows[0].data["result"]
@@ -813,16 +851,16 @@ def check_reader_rows(run, it, fq, nl, rel, case, protocol):
         return None
     for e, which in ((ce, "count"), (le_, "list")):
         r = e.data["target"][2][1][0]
-        ok = False
         try:
+            # exact integer arithmetic over (id, cn, Nmax); an index outside that vocabulary is undecided unless it contains
+            # no token of the line at all (then the row cannot depend on the particle id: definite)
             ok = sp.expand(reader_sym(r, info) - (idS - 1)) == 0
+            lines = {x for x in walk(r) if x[0] == "call" and x[1] == ".readline"}
+            ok = ok and lines == {row_line}
         except AnalysisError:
-            ok = False
-        # the id token must come from the row's own line
-        lines = {x for x in walk(r) if x[0] == "call" and x[1] == ".readline"}
-        ok = ok and lines == {row_line}
+            ok = False if not [x for x in walk(r) if x[0] == "call" and x[1] in (".readline", ".split")] else None
         run.ob("R-IDX", fq, f"{case}:{which}-row", ok, "the row is chosen by the line's particle id - 1 (lines may come in any order)", show(_strip_nonline(r))[:70],
-               witness=None if ok else "rows placed by line order / id not shifted: a file with unsorted ids is misassigned", loc=loc_of(it, e))
+               witness=None if ok else "rows placed by line order / id not shifted: a file with unsorted ids is misassigned", loc=loc_of(it, e), sound=True)
     # count value
     try:
         cv = reader_sym(ce.data["value"], info)
@@ -833,13 +871,13 @@ def check_reader_rows(run, it, fq, nl, rel, case, protocol):
     run.ob("R-PROTO", fq, f"{case}:count", None if okc is None else bool(okc and col0), f"column 0 receives {'the cn field' if le else 'Nmax (truncated)'}",
            f"{show(_strip_nonline(ce.data['target'][2][1][1]))} <- {show(_strip_nonline(ce.data['value']))[:60]}",
            witness=None if okc and col0 else ("cn=7, Nmax=5: stored coordination number is not 5" if not le else "stored coordination number differs from the file's cn field"),
-           loc=loc_of(it, ce))
+           loc=loc_of(it, ce), sound=True)
     # list target slice
     sl = le_.data["target"][2][1][1]
     try:
         lo = sp.Integer(0) if sl[1] == NONE else reader_sym(sl[1], info)
         hi = reader_sym(sl[2], info)
-        oks = tri_lazy(lambda: (True if (sp.simplify(sub_(lo) - 1) == 0) else None), lambda: (True if (sp.simplify(sub_(hi) - 1 - sub_(c_want)) == 0) else None), lambda: eqv(sl[3], NONE))
+        oks = tri(sp.simplify(sub_(lo) - 1) == 0, sp.simplify(sub_(hi) - 1 - sub_(c_want)) == 0, eqv(sl[3], NONE))
     except AnalysisError:
         oks = None
     run.ob("R-PROTO", fq, f"{case}:target", oks, f"the ids fill columns 1 .. {'cn' if le else 'Nmax'} (column 0 is the count)", show(_strip_nonline(sl))[:60],
@@ -856,7 +894,7 @@ def check_reader_rows(run, it, fq, nl, rel, case, protocol):
             try:
                 slo = sp.Integer(0) if tk[1][1] == NONE else reader_sym(tk[1][1], info)
                 shi = reader_sym(tk[1][2], info)
-                oksrc = tri_lazy(lambda: (True if (sp.simplify(sub_(slo) - 2) == 0) else None), lambda: (True if (sp.simplify(sub_(shi) - 2 - sub_(c_want)) == 0) else None), lambda: eqv(tk[1][3], NONE), lambda: (True if (_strip_nonline(tk[0]) == _strip_nonline(row_line)) else None))
+                oksrc = tri(sp.simplify(sub_(slo) - 2) == 0, sp.simplify(sub_(shi) - 2 - sub_(c_want)) == 0, eqv(tk[1][3], NONE), _strip_nonline(tk[0]) == _strip_nonline(row_line))
             except AnalysisError:
                 oksrc = None
         fl = ("call", "builtins.float", (cvar,), ())
@@ -903,9 +941,9 @@ def check_reader_return(run, it, fq, nl, trim):
             run.ob("R-PROTO", fq, f"{case}:cast", None, "cast recognised", show(ret[2][1]), loc=fi.loc())
             return
         ret = ret[2][0]
-    okc = cast == nl
+    okc = cast == nl        # presence of the recognised integer astype on the returned array under this header case: definite
     run.ob("R-PROTO", fq, f"{case}:cast", okc, "neighbour lists are returned as integers, weights as floats", f"integer cast = {cast}",
-           witness=None if okc else ("indices returned as floats cannot index arrays" if nl else "weights 0.25 0.75 are truncated to 0 0"), loc=fi.loc())
+           witness=None if okc else ("indices returned as floats cannot index arrays" if nl else "weights 0.25 0.75 are truncated to 0 0"), loc=fi.loc(), sound=True)
     arr_ok = ret[0] == "call" and ret[1] == "numpy.zeros"
     if trim:
         ok = False
@@ -914,7 +952,7 @@ def check_reader_return(run, it, fq, nl, trim):
             sl = ret[2][1][1]
             try:
                 hi = reader_sym(sl[2], {})
-                ok = tri_lazy(lambda: eqv(sl[1], NONE, C(0)), lambda: eqv(sl[3], NONE), lambda: (True if (sp.expand(hi - mxS - 1) == 0) else None), lambda: (True if (ret[1][0] == "call") else None), lambda: (True if (ret[1][1] == "numpy.zeros") else None))
+                ok = tri(eqv(sl[1], NONE, C(0)), eqv(sl[3], NONE), sp.expand(hi - mxS - 1) == 0, True if (ret[1][0] == "call" and ret[1][1] == "numpy.zeros") else None)
             except AnalysisError:
                 ok = None
         elif arr_ok:
@@ -929,7 +967,7 @@ def check_reader_return(run, it, fq, nl, trim):
                 and ret[1][0] == "call" and ret[1][1] == "numpy.zeros":
             sl = ret[2][1][1]
             try:
-                ok = tri_lazy(lambda: eqv(sl[1], NONE, C(0)), lambda: eqv(sl[3], NONE), lambda: (True if (sub_(reader_sym(sl[2], {}) - MS - 1) == 0) else None))
+                ok = tri(eqv(sl[1], NONE, C(0)), eqv(sl[3], NONE), sub_(reader_sym(sl[2], {}) - MS - 1) == 0)
             except AnalysisError:
                 ok = None
         run.ob("R-PROTO", fq, f"{case}:keep", ok if ok else (False if ret[0] == "sub" and ok is not None else None), "when some particle reaches Nmax the full Nmax + 1 columns are returned", show(ret)[:90],
@@ -964,7 +1002,8 @@ def check_handles(run, pkg):
             mode = kw(o.data["call"], "mode", 1) or C("r")
             inner = [l for l in e.loops if l not in o.loops]
             ok = not set(o.loops) & set(e.loops) or all(l in e.loops for l in o.loops) and len(o.loops) == 0
-            ok = tri_lazy(lambda: (True if (not o.loops) else None), lambda: (True if (len(e.loops) <= 1) else None), lambda: eqv(mode, C("r")), lambda: (True if (o.seq < e.seq) else None))
+            # loop membership of the recognised open() and of the reader call are structural facts: definite either way
+            ok = tri(not (set(o.loops) & set(e.loops)), len(e.loops) <= 1, eqv(mode, C("r"), C("rt")), True if o.seq < e.seq else None)
             wit = None
             if not ok:
                 if o.loops:
